@@ -7,6 +7,9 @@ import random
 
 INT, BOOL, STR, FLOAT = ("int",), ("bool",), ("str",), ("float",)
 ARR = ("arr", INT)
+UIS = ("multi", (INT, STR))
+UIF = ("multi", (INT, FLOAT))
+UALL = ("multi", (INT, STR, FLOAT))
 TUP = ("tup", (INT, BOOL))
 I = lambda n: ("i", n)
 V = lambda x: ("id", x)
@@ -199,6 +202,11 @@ class FoldGen:
             return ("match", self.expr(env, INT, d - 1), arms)
         if d > 0 and k < 0.88:
             x = self.fresh("w")
+            if r.random() < 0.5:
+                # a scrutinee of union type against a binder type that is narrower, wider, overlapping or disjoint
+                bt = r.choice([INT, STR, FLOAT, UIS, UIF, UALL])
+                benv = env + [(x, bt, False)] if bt in (INT, STR, FLOAT) else env
+                return ("ifset", x, bt, V("du"), self.body(benv, d - 1, in_loop), self.body(env, d - 1, in_loop) if r.random() < 0.5 else None)
             return ("ifset", x, INT, self.expr(env, INT, d - 1), self.body(env + [(x, INT, False)], d - 1, in_loop),
                     self.body(env, d - 1, in_loop) if r.random() < 0.5 else None)
         if k < 0.92:
@@ -216,6 +224,7 @@ class FoldGen:
         env.append(("db", BOOL, False))
         out.append(("set", "da", ("array", [V("d0"), I(4)])))
         env.append(("da", ARR, False))
+        out.append(("set", "du", ("pre", "deref", ("mut", UIS, I(1)))))
         for _ in range(self.r.randint(3, 8)):
             out.append(self.stmt(env, depth, False))
         return out
